@@ -49,6 +49,14 @@ BOUNDED = {
         statement="two document items whose derived class names coincide are either the same enum (same values in the same "
                   "order) or a diagnostic is issued; never one silently replacing the other",
         bound="two schemas (inline enum/inline enum over 5 value lists, model/inline enum, model/model), both orders"),
+    "enum_default": dict(
+        unit=P + "properties: convert_value of EnumProperty / LiteralEnumProperty / ConstProperty / UnionProperty (+ templates)",
+        where="openapi_python_client/parser/properties/enum_property.py",
+        statement="a listed / matching value offered as default becomes the attribute default and omitting the argument encodes "
+                  "exactly it; any other value is rejected with a diagnostic and never emitted",
+        bound="47 schemas: string/int enums (both styles) x listed and unlisted defaults, consts, unions",
+        known={"C13-K7-union-default-coerced-by-first-member": lambda case, why: case.get("kind") == "union" and "declared default" in why,
+               "C13-K8-enum-default-with-quote-rejected": lambda case, why: case.get("kind") == "str-enum" and "rejected" in why and '"' in str(case.get("default"))}),
     "equivalent_docs": dict(
         unit="generate() on pairs of documents that say the same thing in different notation", where="openapi_python_client/",
         statement="3.0 nullable vs 3.1 type list / null member, single-member allOf/oneOf/anyOf wrapper vs bare $ref, JSON vs "
